@@ -251,7 +251,8 @@ func (m *Model) Classify(series, field string, want, got []Pt) string {
 		case ok && wv == gv:
 		case ok && in(f.Old[t], gv):
 			stale++
-		case !ok && in(f.Del[t], gv):
+		case !ok && (in(f.Del[t], gv) || in(f.Old[t], gv)):
+			// a deleted cell shows its last value or one that had been overwritten before the delete
 			deleted++
 		default:
 			other++
